@@ -1098,7 +1098,8 @@ class t2listing(object):
             from datetime import datetime, timedelta
             def datetime_array(t): return np.array([start_datetime + timedelta(0, s) for s in t])
             short_times, all_times = datetime_array(short_times), datetime_array(all_times)
-        result = [([short_times, all_times][len(h) == self.num_fulltimes],
+        # (return copies of the times, not the listing's own arrays)
+        result = [(np.array([short_times, all_times][len(h) == self.num_fulltimes]),
                    np.array(h)) for sel_index, h in enumerate(hist)]
         if len(result) == 1: result = result[0]
         return result
